@@ -1,0 +1,45 @@
+//go:build verif
+
+// Contracts for package traversalrecord (properties C01, C02, C06). Comment-only: read by /verif/bin/gsv,
+// never compiled into the package. Clause syntax: /verif/engine/contracts.go; method: /verif/DESIGN.md.
+
+package traversalrecord
+
+//@ typedrefs
+
+//@ -- shape of the record tree, stated edge by edge (so shared or repeated nodes need no special case):
+//@ -- every node owns its segment index, every child entry is a real link object holding a real node, the index and
+//@ -- the child list agree, and a childless child carries a link
+//@ pred isT(t *TraversalRecord) := t != nil && isalloc(t) && dyntype(t) == typetag("*TraversalRecord")
+//@ pred isL(l *traversalLink) := l != nil && isalloc(l) && dyntype(l) == typetag("*traversalLink")
+//@ pred nodeOK(c *TraversalRecord) := len(c.children) > 0 || c.link != nil
+//@ pred shapeM() := forall t *TraversalRecord :: isT(t) ==> t.childSegments != nil && isalloc(t.childSegments)
+//@ pred shapeU() := forall t *TraversalRecord, u *TraversalRecord :: isT(t) && isT(u) && t != u ==> t.childSegments != u.childSegments
+//@ pred shapeK() := forall t *TraversalRecord, j int :: isT(t) && slo(t.children) <= j && j < shi(t.children) ==>
+//@      isL(sat(t.children, j)) && isT(sat(t.children, j).TraversalRecord) && sat(t.children, j).segment in t.childSegments && t.childSegments[sat(t.children, j).segment] == j - slo(t.children)
+//@ pred shapeS() := forall t *TraversalRecord, s datamodel.PathSegment :: isT(t) && s in t.childSegments ==>
+//@      0 <= t.childSegments[s] && t.childSegments[s] < len(t.children) && t.children[t.childSegments[s]].segment == s
+//@ pred treeShape() := shapeM() && shapeU() && shapeK() && shapeS()
+//@ pred leavesLinked() := forall t *TraversalRecord, j int :: isT(t) && slo(t.children) <= j && j < shi(t.children) ==> nodeOK(sat(t.children, j).TraversalRecord)
+//@ pred leavesLinkedBut(x *TraversalRecord) := forall t *TraversalRecord, j int :: isT(t) && slo(t.children) <= j && j < shi(t.children) && sat(t.children, j).TraversalRecord != x ==> nodeOK(sat(t.children, j).TraversalRecord)
+
+//@ func NewTraversalRecord
+//@   requires treeShape()
+//@   modifies alloc, allmaps("map[datamodel.PathSegment]int")
+//@   ensures isT(result) && fresh(result) && len(result.children) == 0 && result.link == nil && treeShape()
+//@   ensures forall t *TraversalRecord :: old(isalloc(t)) ==> t.children == old(t.children) && t.link == old(t.link)
+//@   ensures forall t *TraversalRecord :: isT(t) && !old(isalloc(t)) ==> t == result
+
+//@ -- recording only ever adds: nodes keep their children (more may be appended), their segment index entries and a link once set
+//@ pred grewOnly() := (forall t *TraversalRecord :: old(isT(t)) ==> slo(t.children) == old(slo(t.children)) && shi(t.children) >= old(shi(t.children)))
+//@   && (forall t *TraversalRecord, j int :: old(isT(t)) && old(slo(t.children)) <= j && j < old(shi(t.children)) ==> sat(t.children, j) == old(sat(t.children, j)))
+//@   && (forall t *TraversalRecord :: old(isT(t)) ==> t.childSegments == old(t.childSegments) && (old(t.link) != nil ==> t.link != nil))
+//@   && (forall t *TraversalRecord, s datamodel.PathSegment :: old(isT(t)) && old(s in t.childSegments) ==> s in t.childSegments && t.childSegments[s] == old(t.childSegments[s]))
+//@   && (forall l *traversalLink :: old(isL(l)) ==> l.segment == old(l.segment) && l.TraversalRecord == old(l.TraversalRecord))
+
+//@ func TraversalRecord.RecordNextStep
+//@   requires isT(tr) && treeShape() && leavesLinkedBut(tr)
+//@   modifies alloc, TraversalRecord.link, TraversalRecord.successful, TraversalRecord.children, TraversalRecord.childSegments, traversalLink.segment, traversalLink.TraversalRecord, allmaps("map[datamodel.PathSegment]int")
+//@   callsite TraversalRecord.RecordNextStep: assert len(tr.children) > 0 && isT(self)
+//@   ensures treeShape() && leavesLinked() && nodeOK(tr)
+//@   ensures grewOnly()
